@@ -120,7 +120,7 @@ def check(run, replay=None):
             n = _shape(c[2])[0]
             if run.tier == "thorough" or replay or n <= 5 or not c[4].startswith("V:"):
                 full.add(i)
-            elif n == 6 and n6 < 3:
+            elif n == 6 and n6 < 2:
                 n6 += 1
                 full.add(i)
         run.extra["in_coq_full_inverse_cases"] = len(full)
